@@ -391,6 +391,31 @@ def r02_3(rep, prog):
     okx = bool(xb) and any(a in (('<', ('int', 1), ('param', pl)), ('<=', ('int', 2), ('param', pl))) for a in T.stable_facts(cd, xb[0], 0))
     (rep.holds if ok and okx else rep.violated)('R02.3', '%s:decoder publishes 0 for payloads of <= 1 byte and the xor otherwise' % prog.config, d.where(),
                                                 'zero under len<=1: %s, xor under len>1: %s' % (ok, okx), **({} if ok and okx else {'key': 'dec-range'}))
+    # the decoder's redundant_rng is obtained from the CELT decoder whenever the packet carries a redundancy frame,
+    # whether or not its audio is used (path feasibility under the final values of redundancy / celt_to_silk)
+    loc = {l['name']: ('local', l['id']) for l in d.locals.values()}
+    if 'redundancy' in loc and 'celt_to_silk' in loc and dxors:
+        W = {b for b, i, c in cd.find(lambda c: c[0] == 'call' and any(sx.kind(x) == 'addr' and sx.kind(sx.strip(x[1])) == 'local' and sx.strip(x[1])[1] == 'redundant_rng' for a in c[2] for x in sx.walk(a)))}
+        X = xb[0] if xb else None
+        badv = None
+        for c2s in (0, 1):
+            val = {loc['redundancy']: 1, loc['celt_to_silk']: c2s}
+            fb, fe = decide.feasible_edges(cd, val)
+            seen = {cd.entry}
+            work = [cd.entry]
+            while work:
+                x = work.pop()
+                for y in cd.succ[x]:
+                    if (x, y) in fe and y not in seen and y not in W and x not in cd.noreturn_blocks():
+                        seen.add(y)
+                        work.append(y)
+            if X in seen:
+                badv = c2s
+        ok = bool(W) and X is not None and badv is None
+        (rep.holds if ok else rep.violated)('R02.3', '%s:decoder takes the redundancy frame\'s final range whenever a redundancy frame is present' % prog.config, d.where(),
+                                            '%d site(s) read it into redundant_rng; every feasible path with redundancy=1 passes one' % len(W) if ok else
+                                            'with redundancy=1, celt_to_silk=%s the final range is published without decoding the redundancy frame: redundant_rng keeps its initial 0 and the decoder\'s final range differs from the encoder\'s' % badv,
+                                            **({} if ok else {'key': 'redundant-rng'}))
     # the low-budget path of opus_encode_native also publishes 0
     g = prog.fn('opus_encode_native')
     cg, grets = rangefinal_at_returns(g)
